@@ -81,6 +81,7 @@ def primBounds (n : String) : Bounds :=
   | .achDone => ⟨4, none⟩
   | .achProg => ⟨4, none⟩
   | .splines => ⟨4, none⟩
+  | .updateMask => ⟨9, none⟩
   | .other =>
   if n == "AuraMask_1_12" then ⟨4, some (4 + 32 * 2)⟩
   else if n == "AuraMask_2_4_3" then ⟨8, some (8 + 64 * 3)⟩
